@@ -358,6 +358,28 @@ Fixpoint jcanon (j : json) : json :=
   end.
 Definition json_equiv (a b : json) : Prop := jcanon a = jcanon b.
 
+(* serde_json's invariant on numbers that the echo direction needs: the double of every number
+   is finite.  True for every serde_json::Number: N::Float is finite by construction
+   (from_f64 / the parser reject non-finite), u64/i64 `as f64` is at most 2^64.  Kept as a
+   decidable predicate (the general u64 fact is not proved here; see notes/C06.md). *)
+Definition jnum_ok (n : jnumber) : bool := is_finite (jnum_as_f64 n).
+Fixpoint json_nums_ok (j : json) : bool :=
+  match j with
+  | JNum n => jnum_ok n
+  | JArr l => forallb json_nums_ok l
+  | JObj m => forallb (fun kv => json_nums_ok (snd kv)) m
+  | _ => true
+  end.
+
+(* an independent, relational reading of "JSON value equality with numbers compared as
+   doubles": objects are compared as finite maps (the LAST binding of a key is the one that
+   counts, key order is irrelevant), arrays position by position *)
+Fixpoint jlookup (m : list (string * json)) (k : string) : option json :=
+  match m with
+  | [] => None
+  | (k', v) :: r => match jlookup r k with Some x => Some x | None => if String.eqb k k' then Some v else None end
+  end.
+
 (* records sorted by key at every depth: what a value looks like after the round trip *)
 Fixpoint vsort (v : value) : value :=
   match v with
